@@ -77,4 +77,23 @@ def c03(ctx):
                       ASSUME_LIFT, exhaustive=False)
 
 
-PROPS = {"C01": c01, "C02": c02, "C03": c03, "C05": c05}
+def c06(ctx):
+    q = ctx.quick
+    consts = {"PreOps": False, "CMax": 6, "DMax": 6}
+    ctx.tlc("KyberPairing", cfg(constants=consts, invariants=["TypeOK", "PairLaws"], view="View"), name="C06_mc")
+    out = os.path.join(ctx.tmp, "C06_bfs.ndjson")
+    ctx.tlc("KyberPairing", cfg(constants=consts, invariants=["Emit"]), name="C06_gen_bfs", collect=out)
+    ctx.run_vh("pairing", ["-in", out, "-bindings", 2 if q else 4, "-max", 500 if q else 0])
+    consts2 = dict(consts, PreOps=True)
+    if not q:
+        ctx.tlc("KyberPairing", cfg(constants=consts2, invariants=["TypeOK", "PairLaws"], view="View"), name="C06_mc_preops")
+    sim = os.path.join(ctx.tmp, "C06_sim.ndjson")
+    ctx.tlc("KyberPairing", cfg(constants=consts2, invariants=["Emit"]), name="C06_gen_sim", collect=sim,
+            simulate="num=%d" % (300 if q else 20000), depth=8, workers=1)
+    ctx.run_vh("pairing", ["-in", sim, "-bindings", 2 if q else 4, "-max", 0])
+    return ctx.finish("model_checking",
+                      "behaviour = operand-class pool for G1 x G2 x scalar, optional arithmetic pre-ops leaving non-normalised operands, two pairings / GT operations, then ValidatePairing and GT equality; exhaustive without pre-ops (6910 behaviours), simulated with pre-ops; x 5 pairing suites x bindings of u; oracle: the bilinear form over atom pairings e(B1,B2), e(B1,H2), e(H1,B2), e(H1,H2) evaluated by double-and-add in GT",
+                      ASSUME_LIFT + ["the four atom pairings are computed with the suite's own Pair; bilinearity is what relates every other pairing to them"], exhaustive=False)
+
+
+PROPS = {"C06": c06, "C01": c01, "C02": c02, "C03": c03, "C05": c05}
